@@ -91,6 +91,10 @@ def unlabel(obj, inv):
     return obj
 
 
+# labels of assorted hashable types without any order between them; none is a number (core numbers, counts and indices in
+# an answer must never be mistaken for a label when it is translated back), the first is None, the second falsy
+ANY_LABELS = [None, "", ("n", -1), "node-b", ("q", (1, 2)), ("n", -2), frozenset(), "zz-5"]
+
 # mutually orderable labels (increasing like the node numbers they stand for), the first one falsy
 # ("a", -2) < ("a", -1) are distinct but hash alike
 ORD_LABELS = [(), ("a", -2), ("a", -1), ("b",), ("b", "a"), ("c",), ("c", "c"), ("d",)]
